@@ -115,7 +115,13 @@ def check_case(case: Dict[str, Any], col: Collector, count: bool = True) -> None
     nk_fail = nodekind(case["nodes"][m["fail"]["index"]]) if not m["ok"] else None
     name_len = approx and ((not r["ok"] and isinstance(r["exc"], OSError) and getattr(r["exc"], "errno", None) == 36)
                            or (not m["ok"] and m["fail"]["exc"] == "OSError"))
-    if name_len and m["ok"] != r["ok"]:
+    div0 = approx and m["ok"] != r["ok"] and (
+        (not r["ok"] and "Division by zero" in str(r["exc"])) or (not m["ok"] and "Division by zero" in str(m["fail"].get("detail", ""))))
+    if div0:
+        # a divisor derived from a range sweep hits zero exactly in one float evaluation order and misses it by one ulp in
+        # the other: a discontinuity, not a semantic difference (the reference's progression is its own, not numpy's)
+        col.exclude(1, "range_derived_divisor_at_zero")
+    elif name_len and m["ok"] != r["ok"]:
         # numpy scalars render longer (np.float64(...)) than the floats of the reference: whether a templated file
         # name crosses the 255-byte limit is then an artefact of an undocumented repr, not of the semantics
         col.exclude(1, "file_name_length_depends_on_numpy_repr")
